@@ -62,7 +62,8 @@ def verify(sd):
             open(os.path.join(tmpd, "go.mod"), "w").write(gm)
             shutil.copy("/repo/go.sum", os.path.join(tmpd, "go.sum"))
             race = " -race" if "-race" in meta.get("demo_run", "") else ""
-            demo_cmd = "cd %s && go run%s ." % (tmpd, race)
+            tags = " -tags verif" if "-tags verif" in meta.get("demo_run", "") else ""
+            demo_cmd = "cd %s && go run%s%s ." % (tmpd, race, tags)
         # without the change
         rc0, out0 = sh(demo_cmd, cwd=wt)
         res["demo_passes_without"] = rc0 == 0
